@@ -15,13 +15,13 @@ CLAIMED = {
     "C01": ("bounded-exhaustive exploration (E1) of Step.apply over all steps of the eight types; every returned "
             "document validated at every node by an independent reference validator",
             "All scope documents x every step (all ranges x pool slices x structure flag; wrap/unwrap/retag "
-            "replace-around shapes, thorough: all quadruples; all mark ranges; all node-mark/attr/doc-attr steps), applied "
+            "replace-around shapes; all (from, gapFrom, gapTo, to) x slice x insert quadruples on a sequence-like schema, thorough: on more scopes; all mark ranges; all node-mark/attr/doc-attr steps), applied "
             "as built and after a real JSON encode/decode: outcome must be failure or a fully valid document, never "
             "an internal error.", COMMON_NOTE, "DESIGN.md 5/C01"),
     "C02": ("bounded-exhaustive input-space exploration (E1) of Node.slice/cut/replace against a flat-token splice model",
             "Every document of the listed scopes x every position pair x every reference-computed slice of the donor "
             "scope is executed on the real code and compared with the token-splice reference (result tokens, size, "
-            "rejection exactly when the spliced sequence is ill-formed or schema-invalid).", COMMON_NOTE, "DESIGN.md 5/C02"),
+            "rejection exactly when the spliced sequence is ill-formed or schema-invalid). Includes inline atoms with content and pairs of schemas with identical names but different meaning instantiated in both orders in one process.", COMMON_NOTE, "DESIGN.md 5/C02"),
     "C03": ("bounded-exhaustive exploration: every applied primitive step (E1) and every step emitted by the transform "
             "operation menu on initial and reachable documents (E2), checked against a token-alignment oracle",
             "For every applied step: size delta = sum(new-old), every old token outside the map's ranges is found "
@@ -35,7 +35,7 @@ CLAIMED = {
     "C05": ("bounded-exhaustive exploration (E1) of to_json -> json.dumps -> json.loads -> from_json for every document, "
             "fragment, slice, mark and step of the pools, with deep mutation of the produced JSON to expose aliasing",
             "Equal object, identical JSON, identical step effect/map on a document pool, no aliasing of live attrs, "
-            "registry decodes all eight step types.", COMMON_NOTE, "DESIGN.md 5/C05"),
+            "registry decodes all eight step types (also in a fresh interpreter); documents produced by applying steps round-trip too; the same JSON decoded under two same-named schemas one after the other yields objects of the right schema.", COMMON_NOTE, "DESIGN.md 5/C05"),
     "C06": ("automaton-product exploration (E3): all expression syntax trees up to a node bound compiled by the real "
             "Schema; reachable pairs (ContentMatch state, Brzozowski derivative) explored to closure",
             "Language equivalence for child sequences of unbounded length is decided on the product automaton of every "
